@@ -278,6 +278,7 @@ type locTarget struct {
 	sort  string
 	key   string // ref / aid / map ref; "" for scalar globals
 	whole bool   // entire heap array may change
+	freshOnly bool // with whole: only cells of objects allocated after this point change
 }
 
 func (vc *VC) contractEnv(c *Contract, args []Val, results []Val, st, old *State) *SpecEnv {
@@ -481,6 +482,16 @@ func (vc *VC) evalLoc(e *SpecEnv, x ast.Expr, whole bool) (res []locTarget) {
 		if id, ok := x.Fun.(*ast.Ident); ok {
 			fobj, _ = info.Uses[id].(*types.Func)
 		}
+		if id, ok := x.Fun.(*ast.Ident); ok && id.Name == "govcRvstate" {
+			v := e.eval(x.Args[0])
+			var out []locTarget
+			for _, n := range rvStateHeaps {
+				hs := arrSort(sBV64, arrSort(sBV64, n[1]))
+				vc.ghostSorts[ghostHeapName(n[0])] = hs
+				out = append(out, locTarget{name: ghostHeapName(n[0]), sort: hs, key: v.L[iObj]})
+			}
+			return out
+		}
 		if id, ok := x.Fun.(*ast.Ident); ok && id.Name == "govcOld" {
 			return vc.evalLoc(e.inOld(), x.Args[0], whole)
 		}
@@ -494,7 +505,9 @@ func (vc *VC) evalLoc(e *SpecEnv, x ast.Expr, whole bool) (res []locTarget) {
 				return []locTarget{{name: ghostHeapName(g), whole: true}}
 			}
 			a := e.eval(x.Args[0])
-			return []locTarget{{name: ghostHeapName(g), key: ghostKey(a), sort: vc.ghostSorts[ghostHeapName(g)]}}
+			rs := layoutOf(fobj.Type().(*types.Signature).Results().At(0).Type()).Leaves[0].Sort
+			vc.ghostSorts[ghostHeapName(g)] = arrSort(sBV64, rs)
+			return []locTarget{{name: ghostHeapName(g), key: ghostKey(a), sort: arrSort(sBV64, rs)}}
 		}
 		if sp, ok := vc.w.Specs[fobj]; ok {
 			// location denoted by a spec function: expand its body
@@ -584,10 +597,36 @@ func (vc *VC) havocTargets(st *State, ts []locTarget) {
 			vc.unsupported("assigns of heap %s with unknown sort", n)
 		}
 		whole := false
+		freshOnly := true
+		var keyed []locTarget
 		for _, t := range byName[n] {
 			if t.whole || t.key == "" {
 				whole = true
+				if !t.freshOnly {
+					freshOnly = false
+				}
+			} else {
+				keyed = append(keyed, t)
 			}
+		}
+		if whole && freshOnly && strings.HasPrefix(srt, "(Array ") && (strings.HasPrefix(n, "H!") || strings.HasPrefix(n, "A!")) {
+			// only cells of objects allocated from now on (and explicitly keyed cells) may change
+			old := vc.heapTerm(st, n, srt)
+			f := vc.freshConst("hv", srt)
+			q := vc.fresh("k")
+			below := app("bvult", q, st.alloc)
+			if strings.HasPrefix(n, "A!") {
+				below = app("bvult", "((_ zero_extend 16) ((_ extract 63 16) "+q+"))", st.alloc)
+			}
+			conds := []string{below}
+			for _, t := range keyed {
+				conds = append(conds, not(eq(q, t.key)))
+			}
+			vc.script = append(vc.script, fmt.Sprintf("(assert (forall ((%s %s)) (! (=> %s (= (select %s %s) (select %s %s))) :pattern ((select %s %s)))))",
+				q, indexSortOf(srt), and(conds...), f, q, old, q, f, q))
+			st.heap.m[n] = f
+			vc.heapSort[n] = srt
+			continue
 		}
 		if whole {
 			st.heap.m[n] = vc.freshConst("hv", srt)
@@ -673,6 +712,16 @@ func (vc *VC) lookupLocal(fr *Frame, li *loopInfo, name string, phiVals map[*ssa
 			return fr.vals[phi], true
 		}
 	}
+	// 1b. address-taken local variable: the contract declares it as a pointer
+	for _, b := range fr.fn.Blocks {
+		for _, instr := range b.Instrs {
+			if a, ok := instr.(*ssa.Alloc); ok && a.Comment == name {
+				if v, ok := fr.vals[a]; ok {
+					return v, true
+				}
+			}
+		}
+	}
 	// 2. parameter
 	for _, p := range fr.fn.Params {
 		if p.Name() == name {
@@ -719,6 +768,7 @@ func (vc *VC) lookupLocal(fr *Frame, li *loopInfo, name string, phiVals map[*ssa
 
 // loopModified computes the heaps stored to inside the loop.
 func (vc *VC) loopModified(fr *Frame, li *loopInfo, st *State) ([]locTarget, bool) {
+	vc.effFrame = fr
 	var ts []locTarget
 	var pending []pendingTarget
 	allocs := false
@@ -744,13 +794,13 @@ func (vc *VC) loopModified(fr *Frame, li *loopInfo, st *State) ([]locTarget, boo
 						t := a.Type().(*types.Pointer).Elem()
 						d := &PtrDesc{Root: rObj, Ref: "?", RootT: t, T: t}
 						for _, ll := range vc.leafLocs(d) {
-							ts = append(ts, locTarget{name: ll.name, sort: ll.sort, whole: true})
+							ts = append(ts, locTarget{name: ll.name, sort: ll.sort, whole: true, freshOnly: true})
 						}
 					}
 					if ms, ok := x.(*ssa.MakeSlice); ok {
 						et := ms.Type().Underlying().(*types.Slice).Elem()
 						for _, l := range layoutOf(et).Leaves {
-							ts = append(ts, locTarget{name: elemHeapName(elemKey(et), l.Path), sort: arrSort(sBV64, arrSort(sBV64, l.Sort)), whole: true})
+							ts = append(ts, locTarget{name: elemHeapName(elemKey(et), l.Path), sort: arrSort(sBV64, arrSort(sBV64, l.Sort)), whole: true, freshOnly: true})
 						}
 					}
 					if mi, ok := x.(*ssa.MakeInterface); ok {
@@ -758,7 +808,7 @@ func (vc *VC) loopModified(fr *Frame, li *loopInfo, st *State) ([]locTarget, boo
 						if _, isPtr := t.Underlying().(*types.Pointer); !isPtr && len(layoutOf(t).Leaves) > 0 {
 							d := &PtrDesc{Root: rObj, Ref: "?", RootT: t, T: t}
 							for _, ll := range vc.leafLocs(d) {
-								ts = append(ts, locTarget{name: ll.name, sort: ll.sort, whole: true})
+								ts = append(ts, locTarget{name: ll.name, sort: ll.sort, whole: true, freshOnly: true})
 							}
 						}
 					}
@@ -770,7 +820,7 @@ func (vc *VC) loopModified(fr *Frame, li *loopInfo, st *State) ([]locTarget, boo
 						case "copy", "append":
 							et := cc.Args[0].Type().Underlying().(*types.Slice).Elem()
 							for _, l := range layoutOf(et).Leaves {
-								ts = append(ts, locTarget{name: elemHeapName(elemKey(et), l.Path), sort: arrSort(sBV64, arrSort(sBV64, l.Sort)), whole: true})
+								ts = append(ts, locTarget{name: elemHeapName(elemKey(et), l.Path), sort: arrSort(sBV64, arrSort(sBV64, l.Sort)), whole: true, freshOnly: bi.Name() == "append"})
 							}
 						}
 						continue
@@ -926,6 +976,12 @@ func (vc *VC) storeTargets(fr *Frame, addr ssa.Value, top bool) []locTarget {
 						out[i].whole = false
 						out[i].key = key
 					}
+					return out
+				}
+			}
+			if rootIsLocalAlloc(a.X) {
+				for i := range out {
+					out[i].freshOnly = true
 				}
 			}
 			return out
@@ -945,6 +1001,13 @@ func (vc *VC) storeTargets(fr *Frame, addr ssa.Value, top bool) []locTarget {
 	var out []locTarget
 	for _, ll := range vc.leafLocs(d) {
 		out = append(out, locTarget{name: ll.name, sort: ll.sort, whole: true})
+	}
+	if _, isAlloc := cur.(*ssa.Alloc); isAlloc {
+		if _, done := fr.vals[cur]; !done || !top {
+			for i := range out {
+				out[i].freshOnly = true
+			}
+		}
 	}
 	if top {
 		if v, ok := fr.vals[cur]; ok && len(v.L) == 1 {
@@ -1129,5 +1192,20 @@ func (vc *VC) checkLoopBack(fr *Frame, li *loopInfo, src *ssa.BasicBlock, st *St
 		v := env.eval(ds[0].Expr)
 		v1 := bvExtend(v.L[0], widthOf(v.T), 64, isSigned(v.T))
 		vc.oblige(st, fmt.Sprintf("variant.%d", li.ordinal), "", and(app("bvsle", bvLit(64, 0), li.variant0), app("bvslt", v1, li.variant0)), src.Instrs[len(src.Instrs)-1].Pos(), vc.clauseProps(vc.curContract, ds[0]))
+	}
+}
+
+// rootIsLocalAlloc: the array/slice being indexed is (a field of) an object
+// allocated by an Alloc/MakeSlice instruction.
+func rootIsLocalAlloc(v ssa.Value) bool {
+	for {
+		switch x := v.(type) {
+		case *ssa.FieldAddr:
+			v = x.X
+		case *ssa.Alloc, *ssa.MakeSlice:
+			return true
+		default:
+			return false
+		}
 	}
 }
